@@ -10,7 +10,10 @@
  *   Ols{j,rssPls,rssOls,err,full}   independent least squares (LAPACK dgels): on [1 X] when both blocks are centred; when a block
  *                            is not centred (option -1) on the design the model then spans (no intercept column)
  *   Beta{a,errTrain,errNew}  single response: ybar + s_y * ((x - xbar)/s_x) . PLSBetasCoeff(a) against the score form
- *   Affine{c,d,errTrain,errNew}  single centred response: model of c*y+d against c*(predictions)+d, all LV counts
+ *   Affine{c,lg,d,errTrain,errNew}  single centred response: model of c*y+d against c*(predictions)+d, all LV counts
+ *                            (|c| from 1e-8 to 1e8 for centring-only responses; lg = floor(log10|c|))
+ *   XScale{lg,errTrain,errNew}   model of X*s (change of units, s = 10^lg..) predicts the same, training and unseen, all LV counts
+ *   Reuse{calls,err}         PLSYPredictor for a = 1..nlv into one and the same output matrix against recalculated_y
  *   End{lvs,cols,full,xfull}  Skip{case}  Abort{case,rc}
  */
 #include "scientific.h"
@@ -19,16 +22,34 @@
 
 static unsigned long g_seed;
 
+/* every eighth case ("small-unit" class): one predictor is expressed in small units (spread 1e-4) under a scaling option whose
+ * scale factor is then below the library's zero-scale guard (1e-3): the library treats that variable as constant - consistently
+ * when fitting and when predicting - so the model has rank p-1; single response, nlv <= p-1 */
+#define SMALL_CLASS(idx) ((idx) % 8 == 6)
 static void draw_params(pc_case *c, int *nlv, vrng *r, long idx){
   c->intcase = 0;
   c->n = (int)vr_int(r, 6, 40);
   int pmax = c->n - 2 < 10 ? c->n - 2 : 10;
-  c->p = (int)vr_int(r, 1, pmax);
+  c->p = (int)vr_int(r, SMALL_CLASS(idx) ? 2 : 1, pmax);
   c->ny = (idx % 2 == 0) ? 1 : (int)vr_int(r, 2, 3);
   c->noise = (int)(idx % 4);
   *nlv = ((idx / 2) % 2 == 0) ? c->p : (int)vr_int(r, 1, c->p);
   c->xs = (int)vr_int(r, -1, 5); c->ys = (int)vr_int(r, -1, 5);
   c->nnew = (int)vr_int(r, 3, 10);
+  if(SMALL_CLASS(idx)){ c->xs = (int[]){1, 2, 4}[vr_int(r, 0, 2)]; *nlv = (int)vr_int(r, 1, c->p - 1); }
+}
+
+/* admission of a small-unit case: the other columns as usual; the preprocessed X without column jz of full column rank, cond <= maxcond */
+static int admit_small(pc_case *c, long jz, double maxcond, double *cond){
+  if(!pc_admit_block_skip(c->X, c->xs, jz) || !pc_admit_block(c->Y, c->ys)) return 0;
+  matrix *X0; dvector *a, *s; NewMatrix(&X0, c->n, c->p); initDVector(&a); initDVector(&s);
+  MatrixPreprocess(c->X, c->xs, a, s, X0);
+  double **R = pc_alloc(c->n, c->p - 1), *sv = malloc(sizeof(double) * c->p);
+  for(int i = 0; i < c->n; i++){ int q = 0; for(int j = 0; j < c->p; j++) if(j != jz) R[i][q++] = X0->data[i][j]; }
+  int ok = 0;
+  if(pc_svals(R, c->n, c->p - 1, sv) == 0 && sv[c->p - 2] > 0 && sv[0] / sv[c->p - 2] <= maxcond){ ok = 1; *cond = sv[0] / sv[c->p - 2]; }
+  pc_free(R, c->n); free(sv); DelMatrix(&X0); DelDVector(&a); DelDVector(&s);
+  return ok;
 }
 
 static long q9(double x){ return vq_unit(x, 1e-9); }
@@ -36,19 +57,27 @@ static long q9(double x){ return vq_unit(x, 1e-9); }
 static int one_case(void *arg){
   long idx = *(long *)arg;
   vrng r = pc_stream(g_seed, (unsigned long)idx, 4);
-  pc_case c; int nlv = 1, tries = 0, ok = 0; double cond = 0;
+  pc_case c; int nlv = 1, tries = 0, ok = 0; double cond = 0; long jz = -1;
   for(tries = 1; tries <= 30; tries++){
     draw_params(&c, &nlv, &r, idx);
     int norm = (c.xs == 1 || c.xs == 2 || c.xs == 4 || c.xs == 5);
     pc_gen_real(&c, &r, norm ? -1.0 : 0.0, norm ? 2.0 : 1.0, c.xs == -1 ? 0.5 : 4.0, c.ys == -1 ? 0.5 : 5.0);
+    if(SMALL_CLASS(idx)){
+      jz = vr_int(&r, 0, c.p - 1);
+      for(int i = 0; i < c.n; i++) c.X->data[i][jz] = 1e-4 * vr_norm(&r);
+      for(int i = 0; i < c.nnew; i++) c.Xn->data[i][jz] = 1e-4 * vr_norm(&r);
+      if(admit_small(&c, jz, 1e3, &cond)){ ok = 1; break; }
+      pc_case_free(&c);
+      continue;
+    }
     if(pc_admit(&c, 1e3, &cond)){ ok = 1; break; }
     pc_case_free(&c);
   }
   if(!ok){ VRT_EMIT("{\"e\":\"Skip\",\"case\":%ld}", idx); return 0; }
   int n = c.n, p = c.p, ny = c.ny, m = c.nnew;
   VRT_EMIT("{\"e\":\"Reset\",\"case\":%ld,\"tries\":%d}", idx, tries);
-  VRT_EMIT("{\"e\":\"Fit\",\"n\":%d,\"p\":%d,\"ny\":%d,\"nlv\":%d,\"xs\":%d,\"ys\":%d,\"noise\":%d,\"intc\":0,\"cond\":%ld,\"nnew\":%d}",
-           n, p, ny, nlv, c.xs, c.ys, c.noise, (long)ceil(cond), m);
+  VRT_EMIT("{\"e\":\"Fit\",\"n\":%d,\"p\":%d,\"ny\":%d,\"nlv\":%d,\"xs\":%d,\"ys\":%d,\"noise\":%d,\"intc\":0,\"cond\":%ld,\"nnew\":%d,\"small\":%ld}",
+           n, p, ny, nlv, c.xs, c.ys, c.noise, (long)ceil(cond), m, jz);
 
   PLSMODEL *mod; NewPLSModel(&mod);
   PLS(c.X, c.Y, (size_t)nlv, c.xs, c.ys, mod, NULL);
@@ -141,11 +170,14 @@ static int one_case(void *arg){
     /* affine equivariance of a centred response */
     if(c.ys >= 0){
       for(int att = 0; att < 20; att++){
-        double cf = (vr_int(&r, 0, 1) ? 1.0 : -1.0) * pow(10.0, -0.7 + 1.4 * vr_unif(&r));
-        double df = sqrt(tss[0] / n) * 20.0 * (2 * vr_unif(&r) - 1);
+        /* change of units of the response.  Centring only (option 0): anything from 1e-8 to 1e8; with a scaling
+         * option the scale factor of c*y must stay clear of the library's zero-scale guard (admission below), so moderate c */
+        int wide = (c.ys == 0);
+        double cf = (vr_int(&r, 0, 1) ? 1.0 : -1.0) * (wide ? pow(10.0, -8.0 + 16.0 * vr_unif(&r)) : pow(10.0, -0.7 + 1.4 * vr_unif(&r)));
+        double df = fabs(cf) * sqrt(tss[0] / n) * 20.0 * (2 * vr_unif(&r) - 1);
         matrix *Y2; NewMatrix(&Y2, n, 1);
         for(int i = 0; i < n; i++) Y2->data[i][0] = cf * Y[i][0] + df;
-        if(!pc_admit_block(Y2, c.ys)){ DelMatrix(&Y2); continue; }
+        if(!wide && !pc_admit_block(Y2, c.ys)){ DelMatrix(&Y2); continue; }
         PLSMODEL *m2; NewPLSModel(&m2);
         PLS(c.X, Y2, (size_t)nlv, c.xs, c.ys, m2, NULL);
         matrix *pn2; initMatrix(&pn2); PLSYPredictorAllLV(c.Xn, m2, NULL, pn2);
@@ -158,11 +190,57 @@ static int one_case(void *arg){
           s1 = sqrt(s1 / n) / (fabs(cf) * sqrt(tss[0] / n)); s2 = sqrt(s2 / m) / (fabs(cf) * sqrt(tss[0] / n));
           if(!(s1 <= et)) et = s1; if(!(s2 <= en)) en = s2;
         }
-        VRT_EMIT("{\"e\":\"Affine\",\"c\":%ld,\"d\":%ld,\"errTrain\":%ld,\"errNew\":%ld}", vqs_unit(cf, 1e-3), vqs_unit(df / sqrt(tss[0] / n), 1e-3),
+        long cq = vqs_unit(cf, 1e-3); if(cq == 0) cq = cf < 0 ? -1 : 1;
+        VRT_EMIT("{\"e\":\"Affine\",\"c\":%ld,\"lg\":%ld,\"d\":%ld,\"errTrain\":%ld,\"errNew\":%ld}", cq, (long)floor(log10(fabs(cf))), vqs_unit(df / (fabs(cf) * sqrt(tss[0] / n)), 1e-3),
                  sok ? pc_q12("affineTrain", et) : VQ_MAX, sok ? pc_q12("affineNew", en) : VQ_MAX);
         DelMatrix(&pn2); DelPLSModel(&m2); DelMatrix(&Y2);
         break;
       }
+    }
+  }
+  /* the score-based predictor called for a = 1..nlv into ONE output matrix (the natural loop) gives the stored recalculated_y */
+  {
+    matrix *out; initMatrix(&out);
+    double er = 0;
+    for(int a = 1; a <= nlv; a++){
+      PLSYPredictor(mod->xscores, mod, (size_t)a, out);
+      int sh = (out->row == (size_t)n && out->col == (size_t)ny);
+      for(int j = 0; j < ny; j++){
+        double d2 = 0; for(int i = 0; i < n && sh; i++){ double d = out->data[i][j] - R[i][ny * (a - 1) + j]; d2 += d * d; }
+        double e = sh ? sqrt(d2 / n) / sqrt(tss[j] / n) : NAN;
+        if(!(e <= er)) er = e;
+      }
+    }
+    VRT_EMIT("{\"e\":\"Reuse\",\"calls\":%d,\"err\":%ld}", nlv, pc_q12("reuse", er));
+    DelMatrix(&out);
+  }
+  /* change of units of the predictors: X * s leaves every prediction unchanged.  Without a scaling factor (options -1, 0, and
+   * Pareto's sqrt) s ranges over 1e-8..1e6 as far as the values stay below 1e7; otherwise s is admitted only if every scale factor
+   * of X * s stays clear of the zero-scale guard */
+  if(jz < 0){
+    for(int att = 0; att < 20; att++){
+      int freeunits = (c.xs <= 0);
+      double s = freeunits ? pow(10.0, -8.0 + 14.0 * vr_unif(&r)) : pow(10.0, -3.0 + 7.0 * vr_unif(&r));
+      matrix *X2, *Xn2; NewMatrix(&X2, n, p); NewMatrix(&Xn2, m, p);
+      double mx = 0;
+      for(int i = 0; i < n; i++) for(int j = 0; j < p; j++){ X2->data[i][j] = X[i][j] * s; if(fabs(X2->data[i][j]) > mx) mx = fabs(X2->data[i][j]); }
+      for(int i = 0; i < m; i++) for(int j = 0; j < p; j++){ Xn2->data[i][j] = c.Xn->data[i][j] * s; if(fabs(Xn2->data[i][j]) > mx) mx = fabs(Xn2->data[i][j]); }
+      if(mx > 1e7 || (!freeunits && !pc_admit_block(X2, c.xs))){ DelMatrix(&X2); DelMatrix(&Xn2); continue; }
+      PLSMODEL *m3; NewPLSModel(&m3);
+      PLS(X2, c.Y, (size_t)nlv, c.xs, c.ys, m3, NULL);
+      matrix *pn3; initMatrix(&pn3); PLSYPredictorAllLV(Xn2, m3, NULL, pn3);
+      int sok = (m3->recalculated_y->row == (size_t)n && m3->recalculated_y->col == (size_t)ncol && pn3->row == (size_t)m && pn3->col == (size_t)ncol && pnok);
+      double et = 0, en = 0;
+      for(int col = 0; col < ncol && sok; col++){
+        int j = col % ny; double sc = sqrt(tss[j] / n), s1 = 0, s2 = 0;
+        for(int i = 0; i < n; i++){ double d = m3->recalculated_y->data[i][col] - R[i][col]; s1 += d * d; }
+        for(int i = 0; i < m; i++){ double d = pn3->data[i][col] - pn->data[i][col]; s2 += d * d; }
+        s1 = sqrt(s1 / n) / sc; s2 = sqrt(s2 / m) / sc;
+        if(!(s1 <= et)) et = s1; if(!(s2 <= en)) en = s2;
+      }
+      VRT_EMIT("{\"e\":\"XScale\",\"lg\":%ld,\"errTrain\":%ld,\"errNew\":%ld}", (long)floor(log10(s)), sok ? pc_q12("xscaleTrain", et) : VQ_MAX, sok ? pc_q12("xscaleNew", en) : VQ_MAX);
+      DelMatrix(&pn3); DelPLSModel(&m3); DelMatrix(&X2); DelMatrix(&Xn2);
+      break;
     }
   }
   VRT_EMIT("{\"e\":\"End\",\"lvs\":%d,\"cols\":%d,\"full\":%d,\"xfull\":0}", nlv, ncol, nlv == p ? 1 : 0);
